@@ -617,6 +617,7 @@ namespace bxdecay0 {
       if (modebb == LEGACY_MODEBB_19) {
         decay0_tgold(re2s, 0.5 * (re2s + re2f), re2f, decay0_fe2_mod19, 1.e-3, 2, e2max, f2max, params_);
       }
+      BXDECAY0_VERIF_NOTE("bb_scan2", re2s, re2f, ke2s, ke2f, f2max);
       // Rejection method :
       double fe2;
       fe2 = 0.0;
